@@ -252,6 +252,33 @@ Theorem C04_checker_sound_list : forall l1 l2, perm_eqb l1 l2 = true -> forall x
 Proof. exact perm_eqb_sound. Qed.
 Print Assumptions C04_checker_sound_list.
 
+(** generations of a pool watching the same service (a pipeline update creates the next
+    generation's pool - which subscribes - BEFORE the previous generation stops its watcher, and
+    this repeats).  Once generation g has subscribed with id i, then whatever OTHER generations do
+    with OTHER ids (subscribe, stop, in any order and number; the ids are never issued twice:
+    uuid), the live generation is among the receivers of every report; together with
+    [C04_watch_last_report] its list is the one of the last report. *)
+Theorem C04_watch_generations_isolated : forall g i l st pre r,
+  other_ids_differ g i st -> Forall (quiet_for g i) pre ->
+  In (g, r) (snd (rstep (rfinal (fst (rstep st (WSub g i l))) pre) (WReport r))).
+Proof. exact live_generation_receives. Qed.
+Print Assumptions C04_watch_generations_isolated.
+
+(** non-vacuity, and why the hypothesis "other ids" is needed: with ids re-used after a stop
+    (gen 3 obtains gen 2's id) closing gen 2 deletes gen 3's subscription and a later report reaches
+    nobody; with distinct ids it reaches generation 3 *)
+Example C04_watch_generations_nonvacuous :
+  let a := [{| i_url := "x"; i_tags := []; i_w := 0 |}] in
+  snd (rstep (rfinal rinit [WSub 1 1 a; WSub 2 2 a; WStop 1; WSub 3 3 a; WStop 2]) (WReport a)) = [(3%nat, a)] /\
+  snd (rstep (rfinal rinit [WSub 1 1 a; WSub 2 2 a; WStop 1; WSub 3 2 a; WStop 2]) (WReport a)) = [] /\
+  Forall (quiet_for 3 3) [WStop 2; WSub 4 4 a; WStop 1] /\ other_ids_differ 3 3 (rfinal rinit [WSub 1 1 a; WSub 2 2 a; WStop 1]).
+Proof.
+  cbv zeta. split; [vm_compute; reflexivity|]. split; [vm_compute; reflexivity|]. split.
+  - repeat constructor; cbn; lia.
+  - intros g' i' H Hne. vm_compute in H.
+    destruct g' as [|[|[|g']]]; try discriminate; inversion H; subst; lia.
+Qed.
+
 (** ONE request passing through several balancers (a mirror pool next to the main pool, several
     Proxy filters of one pipeline, candidate pools): every stage's outcome is [choose] applied to
     THAT stage's key ([stage_key]: the client address for ipHash, the value of the stage's own
